@@ -42,6 +42,12 @@ impl std::ops::Add for S {
         mk(self.0[0].wrapping_add(o.0[0]))
     }
 }
+impl std::ops::BitXor for S {
+    type Output = S;
+    fn bitxor(self, o: S) -> S {
+        mk(self.0[0] ^ o.0[0])
+    }
+}
 impl std::ops::Mul for S {
     type Output = S;
     fn mul(self, o: S) -> S {
@@ -98,6 +104,9 @@ fn feed(w: &WriteStream<S>, k: usize, next: &mut u64, tag_every: u64, fed: &mut 
 fn drain(r: &ReadStream<S>, j: usize, got: &mut Vec<u64>, got_tags: &mut Vec<TagRec>) -> usize {
     let (rb, tags) = r.read_buf().unwrap();
     let n = std::cmp::min(j, rb.len());
+    if std::env::var("BX_TRACE").is_ok() {
+        eprintln!("drain: got={} avail={} take={} tags={:?}", got.len(), rb.len(), n, tags.iter().map(|t| (t.pos(), t.key().to_string(), tv(t.val()))).collect::<Vec<_>>());
+    }
     for t in &tags {
         if t.pos() < n {
             got_tags.push((got.len() + t.pos(), t.key().to_string(), tv(t.val())));
@@ -672,6 +681,108 @@ fn run_hdlc(seed: u64) -> Result<u64, Fail> {
     Ok(works)
 }
 
+// ------------------------------------------------------------------------------------------------ derive-generated sync work()
+// The work() of "sync" blocks is generated by the derive macro; no verifier in this sandbox can take it (DESIGN.md,
+// C19 n/a).  BOUNDED stand-in: representative sync blocks (1->2 Tee, 2->1 Add / Xor, 1->1 AddConst / XorConst /
+// NrziDecode-like stateful kernel via Delay-free identity) under drip-feed schedules: sample-wise function, one
+// output per input, tags of the first input on the same output index exactly once, verdict sanity.
+fn wait_is_truthful(w: &dyn rustradio::stream::StreamWait, need: usize) -> bool {
+    // a request the stream already satisfies returns at once; a genuine one takes the 100 ms timeout
+    let t = std::time::Instant::now();
+    let _ = w.wait(need);
+    t.elapsed() >= std::time::Duration::from_millis(40)
+}
+
+fn run_sync(seed: u64) -> Result<u64, Fail> {
+    let target = "sync";
+    let mut rng = Rng(seed * 6700417 + 29);
+    let which = rng.below(5);
+    let params = format!("block={}", ["Tee", "Add", "Xor", "AddConst", "XorConst"][which]);
+    let two_in = which == 1 || which == 2;
+    let (wa, ra) = new_stream::<S>();
+    let (wb, rb) = new_stream::<S>();
+    enum B { Tee(Tee<S>), Add(Add<S, S, S>), Xor(Xor<S>), AddC(AddConst<S>), XorC(XorConst<S>) }
+    let (mut blk, out1, out2): (B, ReadStream<S>, Option<ReadStream<S>>) = match which {
+        0 => { let (b, o1, o2) = Tee::new(ra); (B::Tee(b), o1, Some(o2)) }
+        1 => { let (b, o) = Add::new(ra, rb); (B::Add(b), o, None) }
+        2 => { let (b, o) = Xor::new(ra, rb); (B::Xor(b), o, None) }
+        3 => { let (b, o) = AddConst::new(ra, mk(1000)); (B::AddC(b), o, None) }
+        _ => { let (b, o) = XorConst::new(ra, mk(0xff)); (B::XorC(b), o, None) }
+    };
+    let (mut na, mut nb) = (1u64, 500_000u64);
+    let (mut fa, mut fa_tags, mut fb, mut fb_tags) = (vec![], vec![], vec![], vec![]);
+    let (mut g1, mut g1t, mut g2, mut g2t) = (vec![], vec![], vec![], vec![]);
+    let tag_every = [1u64, 2, 3, 50][rng.below(4)];
+    let style = rng.below(4);
+    let mut works = 0u64;
+    let mut wait_checks = 0;
+    for s in 0..100 {
+        let feeding = s < 60;
+        if feeding {
+            let k = match style { 1 => rng.pick(&[0, 1, 5, 300, 1000]), 2 => rng.pick(&[300, 1000, 1000]), 3 => rng.pick(&[0, 1, 1, 2, 3]), _ => rng.pick(&[0, 1, 2, 7, 100, 500, 1000]) };
+            feed(&wa, k, &mut na, tag_every, &mut fa, &mut fa_tags);
+            if two_in {
+                // the second input lags or leads independently
+                let k2 = rng.pick(&[0, 0, 1, 3, 200, 1000]);
+                feed(&wb, k2, &mut nb, 0, &mut fb, &mut fb_tags);
+            }
+        } else if two_in && fb.len() < fa.len() {
+            let need = fa.len() - fb.len();
+            feed(&wb, need, &mut nb, 0, &mut fb, &mut fb_tags);
+        } else if two_in && fa.len() < fb.len() {
+            let need = fb.len() - fa.len();
+            feed(&wa, need, &mut na, tag_every, &mut fa, &mut fa_tags);
+        }
+        for _ in 0..(if feeding { 1 + rng.below(3) } else { 3 }) {
+            let before = (wa.free(), wb.free(), readable(&out1), out2.as_ref().map(|o| readable(o)).unwrap_or(0));
+            let r = std::panic::catch_unwind(std::panic::AssertUnwindSafe(|| {
+                let ret = match &mut blk { B::Tee(b) => b.work(), B::Add(b) => b.work(), B::Xor(b) => b.work(), B::AddC(b) => b.work(), B::XorC(b) => b.work() };
+                match ret {
+                    Ok(BlockRet::Again) => (0u8, true),
+                    Ok(BlockRet::WaitForStream(w, need)) => (1u8, if wait_checks < 2 { wait_is_truthful(w, need) } else { true }),
+                    Ok(_) => (2u8, true),
+                    Err(_) => (3u8, true),
+                }
+            }));
+            works += 1;
+            let (verdict, truthful) = match r {
+                Err(_) => return Err(Fail { target: target.into(), prop: "C15", label: "C15.sync.work-does-not-panic".into(), what: "generated work() panicked".into(), seed, params }),
+                Ok(v) => v,
+            };
+            let after = (wa.free(), wb.free(), readable(&out1), out2.as_ref().map(|o| readable(o)).unwrap_or(0));
+            if verdict == 0 && after == before {
+                return Err(Fail { target: target.into(), prop: "C09", label: "C09.sync.again-means-progress".into(), what: format!("Again without progress {:?}", after), seed, params });
+            }
+            if verdict == 1 && after == before && wait_checks < 2 {
+                wait_checks += 1;
+                if !truthful {
+                    return Err(Fail { target: target.into(), prop: "C09", label: "C09.sync.wait-names-the-blocking-stream".into(),
+                        what: format!("waits on a stream that already offers what was asked for (input free {}/{} output fill {}/{})", after.0, after.1, after.2, after.3), seed, params });
+                }
+            }
+        }
+        let j = if !feeding { CAP } else { match style { 1 => rng.pick(&[0, 0, 1, 2, 3]), 2 => rng.pick(&[0, 100, 1000]), 3 => rng.pick(&[0, 1, 2]), _ => rng.pick(&[0, 1, 10, 400, 1000]) } };
+        drain(&out1, j, &mut g1, &mut g1t);
+        if let Some(o2) = &out2 {
+            let j2 = if !feeding { CAP } else { rng.pick(&[0, 1, 5, 1000]) };
+            drain(o2, j2, &mut g2, &mut g2t);
+        }
+        let n = if two_in { std::cmp::min(fa.len(), fb.len()) } else { fa.len() };
+        let want: Vec<u64> = (0..n).map(|i| match which { 0 => fa[i], 1 => fa[i].wrapping_add(fb[i]), 2 => fa[i] ^ fb[i], 3 => fa[i].wrapping_add(1000), _ => fa[i] ^ 0xff }).collect();
+        let want_tags: Vec<TagRec> = fa_tags.iter().filter(|t| t.0 < n).cloned().collect();
+        cmp_prefix(target, seed, &params, &g1, &want, false)?;
+        cmp_tags(target, seed, &params, &g1t, &want_tags, g1.len())?;
+        if out2.is_some() {
+            cmp_prefix(target, seed, &params, &g2, &want, false)?;
+        }
+    }
+    let n = if two_in { std::cmp::min(fa.len(), fb.len()) } else { fa.len() };
+    if g1.len() != n {
+        return Err(Fail { target: target.into(), prop: "C08", label: "C08+C10.sync.stream-function".into(), what: format!("{} outputs for {} complete input tuples", g1.len(), n), seed, params });
+    }
+    Ok(works)
+}
+
 #[test]
 fn bx_blocks() {
     std::panic::set_hook(Box::new(|i| {
@@ -681,7 +792,7 @@ fn bx_blocks() {
             }
         }
     }));
-    let targets = std::env::var("BX_TARGETS").unwrap_or_else(|_| "skip,delay,fir,resampler,vsrc,v2s,consts,repeat,hdlc".into());
+    let targets = std::env::var("BX_TARGETS").unwrap_or_else(|_| "skip,delay,fir,resampler,vsrc,v2s,consts,repeat,hdlc,sync".into());
     let n: u64 = std::env::var("BX_N").ok().and_then(|s| s.parse().ok()).unwrap_or(40);
     let base: u64 = std::env::var("VERIF_SEED").ok().and_then(|s| s.parse().ok()).unwrap_or(1);
     let only: Option<u64> = std::env::var("BX_ONLY_SEED").ok().and_then(|s| s.parse().ok());
@@ -698,6 +809,7 @@ fn bx_blocks() {
                 "v2s" => run_v2s(seed),
                 "consts" => run_consts(seed),
                 "hdlc" => run_hdlc(seed),
+                "sync" => run_sync(seed),
                 "repeat" => { if runs > 0 { break; } run_repeat() }
                 _ => Ok(0),
             };
